@@ -22,7 +22,11 @@ the Session.  After every boundary the object side is judged without triggering 
   * objects created after the frame that was rolled back are transient and outside the
     session; objects that were persistent when the frame was taken (including those
     deleted since) are persistent again (or detached if the history expunged them);
-  * after ``close()`` no tracked object is attached to the session any more;
+  * after ``close()`` no tracked object whose row exists is still attached to the session
+    (an object whose DELETE was *committed* under expire_on_commit=False stays in the
+    'deleted' state for ever; that does not contradict the database and is only counted);
+  * a persistent object without a row whose key was switched more than once below the
+    frame rolled back to is reported as ``nested-pk-switches-restore-intermediate-key``;
 then a second pass reads every attribute the ordinary way and the relation must hold
 again (what gets loaded is the in-scope row).
 
@@ -60,6 +64,7 @@ WEIGHTS = {"new": 24, "set": 12, "m2o": 9, "app": 6, "rem": 5, "repl": 2, "clr":
            "exp": 1, "readd": 1, "merge": 2, "rowswitch": 2, "pk": 4, "flush": 6, "commit": 3, "rollback": 3,
            "nest": 8, "spc": 4, "spr": 7, "close": 1, "expire": 1, "expall": 1, "refresh": 1, "get": 1, "touch": 3}
 BOUNDARY = ("commit", "rollback", "spc", "spr", "close")
+DROPPED = "collection-member-dropped-from-session-not-inserted"   # judged by C30 only
 
 
 def kinds_of(R, rig):
@@ -158,6 +163,24 @@ def judge_boundary(ctx, R, rig, model, op, ops, kd, pre_commit_dump, stats):
             st = sa.inspect(o)
             if st.session is rig.session:
                 k = R.state_kind(st, rig.session)
+                mi = rig.zoo.info(st.mapper)
+                t = mi.tables[0].name
+                identd = dict(zip(mi.pk_keys, st.key[1])) if st.key else {}
+                w = " AND ".join(f"{cn} = ?" for cn, _ in mi.table_pk_keys[t])
+                has_row = bool(st.key) and bool(rig.read_committed(f"SELECT 1 FROM {t} WHERE {w}", tuple(identd[kk] for _, kk in mi.table_pk_keys[t]))[1])
+                if has_row and k == "deleted":
+                    # the row may belong to another object by now (row switch / rowid reuse)
+                    for o2 in rig.objs:
+                        st2 = sa.inspect(o2)
+                        if o2 is not o and st2.key == st.key and not st2._deleted:
+                            has_row = False
+                if k == "deleted" and not has_row:
+                    # with expire_on_commit=False an object whose DELETE was committed is never
+                    # moved from 'deleted' to 'detached' (not even by close()).  Its state does
+                    # not contradict the database (no row), so C33 only counts it; reported
+                    # to the lifecycle property (C35) as a side observation.
+                    ctx.count("committed_delete_still_deleted_state_after_close")
+                    continue
                 vio(f"close-leaves-{k}-object-attached",
                     f"{type(o).__name__} slot {slot} is still attached to the session in state '{k}' after Session.close()"
                     + (" although close() rolled its DELETE back and the row exists" if k == "deleted" else ""),
@@ -186,8 +209,23 @@ def judge_boundary(ctx, R, rig, model, op, ops, kd, pre_commit_dump, stats):
     # ---- relation, first without loading anything, then after loading everything
     reader = rig.read_committed if kind in ("commit", "rollback", "close") else rig.read_txn
     cnt = {}
-    for f in R.relation(rig, R.snapshot(rig), reader, cnt):
-        vio(f.mechanism, f.summary, {"detail": f.detail, "pass": 1})
+    rowless = False
+    found = [f for f in R.relation(rig, R.snapshot(rig), reader, cnt) if f.mechanism != DROPPED]
+    if any(f.mechanism == "persistent-object-without-row" for f in found):
+        # the row such an object should own is reported once, through the object
+        found = [f for f in found if f.mechanism != "row-without-owner"]
+    for f in found:
+        mech = f.mechanism
+        if mech == "persistent-object-without-row":
+            rowless = True
+            o = rig.objs[f.detail["slot"]]
+            if kind in ("spr", "rollback") and len(rig.idents_seen.get(id(o), ())) >= 3:
+                # the object's key was switched more than once below the frame rolled back
+                # to and it now carries one of the intermediate keys
+                mech = "nested-pk-switches-restore-intermediate-key"
+        vio(mech, f.summary, {"detail": f.detail, "pass": 1})
+    if rowless:
+        return False    # loading such an object can only raise ObjectDeletedError: same defect
     try:
         n = touch_all(rig)
         ctx.count("second_pass_values_loaded", n)
@@ -195,7 +233,8 @@ def judge_boundary(ctx, R, rig, model, op, ops, kd, pre_commit_dump, stats):
         vio("attribute-access-raised-after-boundary", f"{type(e).__name__}: {str(e)[:200]}")
         return False
     for f in R.relation(rig, R.snapshot(rig), reader, cnt):
-        vio("second-pass-" + f.mechanism, f.summary, {"detail": f.detail, "pass": 2})
+        if f.mechanism != DROPPED:
+            vio("second-pass-" + f.mechanism, f.summary, {"detail": f.detail, "pass": 2})
     for k2, v in cnt.items():
         ctx.count(k2, v)
     return True
@@ -297,6 +336,9 @@ SCRIPTED = [
      ["touch", 0, "addresses"], ["nest"], ["nest"], ["pk", 0, "u2"], ["spc"], ["spc"], ["set", 1, "note", "m"], ["flush"], ["rollback"]],
     # PK switch inside a savepoint that is rolled back
     [["new", "Child", 0, {"val": 1}, {"parent": None}], ["commit"], ["touch", 0, "val"], ["nest"], ["pk", 0, 500000], ["set", 0, "val", 2], ["flush"], ["spr"], ["commit"]],
+    # two PK switches in nested savepoints, inner released, outer rolled back: the *original* key
+    [["new", "Vertex", 0, {"start": [1, 2], "end": [3, 4]}, {}], ["commit"], ["touch", 0, "start"], ["nest"], ["pk", 0, 500000], ["nest"],
+     ["pk", 0, 600000], ["spc"], ["spr"], ["commit"]],
     # delete inside a released savepoint, then outer rollback: persistent again
     [["new", "Parent", 0, {"name": "p", "n": 1}, {}], ["new", "Child", 1, {"val": 1}, {"parent": 0}], ["commit"], ["touch", 0, "children"],
      ["nest"], ["del", 1], ["flush"], ["spc"], ["rollback"]],
